@@ -134,9 +134,8 @@ BIT_STRING_encode_oer(const asn_TYPE_descriptor_t *td,
     }
 
     if(st->bits_unused) {
-        if(st->buf[st->size - 1] & (0xff << (st->bits_unused & 0x07))) {
-            fix_last_byte = 1;
-        }
+        /* The unused bits of the last octet are always sent as zeros. */
+        fix_last_byte = 1;
     }
 
     if(cb(st->buf, st->size - fix_last_byte, app_key) < 0) {
